@@ -123,7 +123,7 @@ EndCommand(T, s, top, t) ==
          ELSE LET s2 == IF name = "require"
                         THEN LET vals == PosVals(s.nodes[top.node])
                                  exts == IF Len(vals) = 0 THEN {} ELSE StrsOf(vals[1])
-                             IN [(IF exts \subseteq KnownExts THEN s1 ELSE Irr(s1, "unknownExt"))
+                             IN [(IF exts \subseteq (KnownExts \cup {T[c].ext : c \in DOMAIN T}) THEN s1 ELSE Irr(s1, "unknownExt"))
                                    EXCEPT !.loaded = @ \cup exts]
                         ELSE s1
               IN SetTop(Pop(s2), [parent EXCEPT !.prev = name,
@@ -292,6 +292,62 @@ Steps(T, s, t) == {RefStep(T, s, t)} \cup DevSucc(T, s, t)
 RECURSIVE RunSeq(_, _, _)
 RunSeq(T, s, ts) == IF ts = <<>> \/ s.v # "run" THEN s
                     ELSE RunSeq(T, RefStep(T, s, Head(ts)), Tail(ts))
+
+\* ------------------------------------------------------- serialisation (C04)
+\* Ser: the canonical text of a tree as a token sequence: identifier, tags in table
+\* order (each with its parameter), positionals in order, test or test list, then
+\* `;' or the block.  RoundTrip: re-reading Ser(tree) gives the same tree and the
+\* same serialisation (checked by TLC on every accepted behaviour).
+RECURSIVE ItemToks(_)
+ItemToks(items) == IF items = <<>> THEN <<>>
+                   ELSE <<TK(IF items[1][1] = "m" THEN "ml" ELSE "str", items[1][2])>>
+                        \o (IF Len(items) > 1 THEN <<TK("comma", "")>> ELSE <<>>) \o ItemToks(Tail(items))
+ValToks(val) == CASE val = <<>> -> <<>>
+                  [] val[1] = "s" -> <<TK("str", val[2])>>
+                  [] val[1] = "m" -> <<TK("ml", val[2])>>
+                  [] val[1] = "n" -> <<TK("num", val[2])>>
+                  [] OTHER -> <<TK("lb", "")>> \o ItemToks(val[2]) \o <<TK("rb", "")>>
+
+KidsOf(s, i, role) == LET S == {j \in 1..Len(s.nodes) : s.nodes[j].par = i /\ s.nodes[j].role = role}
+                      IN [k \in 1..Cardinality(S) |-> CHOOSE j \in S : Cardinality({x \in S : x <= j}) = k]
+
+RECURSIVE SerNode(_, _, _), SerSeq(_, _, _, _)
+SerSeq(T, s, ids, sep) == IF ids = <<>> THEN <<>>
+                          ELSE SerNode(T, s, ids[1]) \o (IF Len(ids) > 1 THEN sep ELSE <<>>) \o SerSeq(T, s, Tail(ids), sep)
+SerNode(T, s, i) ==
+  LET nd == s.nodes[i]
+      E == T[nd.name]
+      TagPart(k) == LET A == {a \in 1..Len(nd.args) : nd.args[a][1] # "" /\ nd.args[a][1] \in E.slots[k].tags}
+                    IN IF A = {} THEN <<>>
+                       ELSE LET a == CHOOSE x \in A : \A y \in A : y <= x      \* last occurrence wins
+                            IN <<TK("tag", nd.args[a][1])>> \o ValToks(nd.args[a][2])
+      RECURSIVE Tags(_)
+      Tags(k) == IF k > Len(E.slots) THEN <<>> ELSE TagPart(k) \o Tags(k + 1)
+      PV == PosVals(nd)
+      RECURSIVE Poss(_)
+      Poss(k) == IF k > Len(PV) THEN <<>> ELSE ValToks(PV[k]) \o Poss(k + 1)
+      tests == KidsOf(s, i, "t")
+      kids == KidsOf(s, i, "c")
+  IN <<TK("id", nd.name)>> \o Tags(1) \o Poss(1)
+     \o (IF E.tests = "list" /\ tests # <<>>
+         THEN <<TK("lp", "")>> \o SerSeq(T, s, tests, <<TK("comma", "")>>) \o <<TK("rp", "")>>
+         ELSE SerSeq(T, s, tests, <<>>))
+     \o (IF nd.role = "t" THEN <<>>
+         ELSE IF nd.blk THEN <<TK("lc", "")>> \o SerSeq(T, s, kids, <<>>) \o <<TK("rc", "")>>
+         ELSE <<TK("semi", "")>>)
+
+Ser(T, s) == SerSeq(T, s, KidsOf(s, 0, "c"), <<>>)
+
+\* a tree up to the order of tags
+Canon(s) == [i \in 1..Len(s.nodes) |->
+               <<s.nodes[i].name, s.nodes[i].par, s.nodes[i].role, s.nodes[i].blk,
+                 {s.nodes[i].args[a] : a \in {x \in 1..Len(s.nodes[i].args) : s.nodes[i].args[x][1] # ""}},
+                 PosVals(s.nodes[i])>>]
+
+RoundTripOf(T, e) ==      \* e: an accepted final state without irregularity
+  LET ts == Ser(T, e)
+      r == RunSeq(T, InitState, ts \o <<EOFTok>>)
+  IN r.v = "acc" /\ r.irr = {} /\ Canon(r) = Canon(e) /\ Ser(T, r) = ts
 
 \* ------------------------------------------------ design-level invariants
 \* C07 at design level: every node/tag of the tree that belongs to an
